@@ -1,8 +1,8 @@
 (* C16 — diagnostic trouble codes and lamp states arrive exactly as sent (DM1, DTC, DM22).
    All definitions are generated from /repo (DiagGen) or built from them (Dm1Model, tied by item correspondence). *)
-From J1939 Require Import Base Dm1Model.
-From J1939.gen Require Import DiagGen.
-From J1939P Require Import CodecProofs DiagProofs.
+From J1939 Require Import Base CodecGlue Model21 Dm1Model.
+From J1939.gen Require Import Codec Tp21Gen CaGen DiagGen.
+From J1939P Require Import CodecProofs DiagProofs Flat Tp21Seg Net21 Net21Bam Dm1Net.
 
 Theorem C16_dtc_roundtrip : forall spn fmi oc, 0 <= spn < 524288 -> 0 <= fmi < 32 -> 0 <= oc < 128 ->
   dtc_unpack (dtc_pack spn fmi oc) = (spn, fmi, oc, 0).
@@ -44,3 +44,23 @@ Print Assumptions C16_dm22_layout.
 Theorem C16_dm22_destination : forall dest, dm22_args dest = (0, 195, dest mod 256, 6).
 Proof. exact dm22_destination. Qed.
 Print Assumptions C16_dm22_destination.
+
+(* end to end on the J1939-21 layer: a DM1 with 2 .. 445 trouble codes (every DM1 that needs the transport protocol and fits it),
+   handed over as the Dm1 service does (PGN 0xFECA, a PDU2 group; priority 7), runs through the broadcast closed loop of two model
+   nodes and reaches every listener of the other node as ONE payload that parses back to exactly the lamp states and the
+   trouble codes, in order; nothing is left on either node *)
+Theorem C16_dm1_over_broadcast_end_to_end : forall pl awl rsl mil dtcs sa t0 A0 B0,
+  lamp_state pl -> lamp_state awl -> lamp_state rsl -> lamp_state mil -> Forall dtc_ok dtcs ->
+  (2 <= length dtcs <= 445)%nat -> 0 <= sa < 255 -> 0 < t0 ->
+  0 < n_bam_iv A0 < tp21_T1 ->
+  n_snd A0 = [] /\ n_rcv A0 = [] /\ n_timers A0 = [] ->
+  n_snd B0 = [] /\ n_rcv B0 = [] /\ n_timers B0 = [] ->
+  let p := dm1_build pl awl rsl mil dtcs in
+  dm1_priority p = 7 /\
+  exists j, let s := Net21.steps j (Net21.net_send (Net21.net0 A0 B0 t0) 0 254 202 (dm1_priority p) sa p) in
+    Net21.qa s = [] /\ Net21.qb s = [] /\ n_snd (Net21.na s) = [] /\ n_rcv (Net21.na s) = [] /\
+    n_snd (Net21.nb s) = [] /\ n_rcv (Net21.nb s) = [] /\
+    Net21.evb s = deliveries B0 7 65226 sa addr_GLOBAL p /\
+    dm1_parse p = Some ([pl; awl; rsl; mil], dtcs).
+Proof. exact dm1_over_broadcast_end_to_end. Qed.
+Print Assumptions C16_dm1_over_broadcast_end_to_end.
